@@ -155,7 +155,7 @@ func checkC04(p *Prog, r *Report) {
 	// ---- W5
 	checkTimeoutCollapse(p, r)
 	// ---- W6
-	checkWriteAdmission(p, r)
+	checkWriteAdmission(p, r, "C04.W6")
 	// ---- W7
 	checkCwndGrowth(p, r)
 }
@@ -638,7 +638,7 @@ func (p *Prog) incrementedUnderRTO(fi *FuncInfo, v *types.Var) bool {
 	return false
 }
 
-func checkWriteAdmission(p *Prog, r *Report) {
+func checkWriteAdmission(p *Prog, r *Report, rule string) {
 	send := p.Method("KCP", "Send")
 	waitSnd := p.Method("KCP", "WaitSnd")
 	fKcp := p.Field("UDPSession", "kcp")
@@ -689,7 +689,7 @@ func checkWriteAdmission(p *Prog, r *Report) {
 			}
 		}
 		if guard == nil {
-			r.bad("C04.W6", s.Fn.Name, p.Pos(s.Call), construct, "no dominating branch on WaitSnd() < snd_wnd", p.unguardedPath(s.Fn, s.Call, nil))
+			r.bad(rule, s.Fn.Name, p.Pos(s.Call), construct, "no dominating branch on WaitSnd() < snd_wnd", p.unguardedPath(s.Fn, s.Call, nil))
 			continue
 		}
 		// no Unlock of the session mutex on any path from the guard edge to the Send
@@ -713,7 +713,7 @@ func checkWriteAdmission(p *Prog, r *Report) {
 			// the Unlock is reachable from the guard without passing the Send; does a path continue from it to the Send?
 			last := res.Path[len(res.Path)-1]
 			if c.Reaches(Point{last.B, last.I + 1}, sendPt) {
-				r.bad("C04.W6", s.Fn.Name, p.Pos(s.Call), construct, "the session mutex is released between the admission test and the Send", c.DescribePath(res.Path))
+				r.bad(rule, s.Fn.Name, p.Pos(s.Call), construct, "the session mutex is released between the admission test and the Send", c.DescribePath(res.Path))
 				continue
 			}
 		}
@@ -735,10 +735,10 @@ func checkWriteAdmission(p *Prog, r *Report) {
 			return false
 		}, IsBarrier: func(n ast.Node, pt Point) bool { return pt == sendPt }})
 		if !blocks.Found {
-			r.bad("C04.W6", s.Fn.Name, p.Pos(s.Call), construct, "the refused path does not reach a blocking select (Write would spin or return)", "")
+			r.bad(rule, s.Fn.Name, p.Pos(s.Call), construct, "the refused path does not reach a blocking select (Write would spin or return)", "")
 			continue
 		}
-		r.ok("C04.W6", s.Fn.Name, p.Pos(s.Call), construct, "admitted only on the true edge of WaitSnd() < snd_wnd, same critical section; refused path blocks in select")
+		r.ok(rule, s.Fn.Name, p.Pos(s.Call), construct, "admitted only on the true edge of WaitSnd() < snd_wnd, same critical section; refused path blocks in select")
 	}
 }
 
